@@ -243,3 +243,177 @@ def first_difference(p):
     if tail != str(p['real']['uncaught']):
         return {'index': len(want), 'real': f"uncaught={p['real']['uncaught']} {p['real']['exc']}", 'model': 'uncaught=' + tail, 'stage_of_real_call': None}
     return None
+
+# ----------------------------------------------------------------------------- cases
+
+LANG_OPTS = [None, None, None, None, 'de', 'pl', 'pl_PL', 'sr@latin', 'en_US.UTF-8', 'pt_BR', 'xx', 'zh_TW']
+PATHS = ['x', 'de', 'pl', 'gizmo', 'pl/LC_MESSAGES/gizmo', 'de/LC_MESSAGES/de', 'po/pl_PL', 'xx/LC_MESSAGES/x', 'a b/c', 'pl/x']
+
+def gen_cases(rng, n, sources=('meta', 'catalog', 'hostile')):
+    """[(relative path, bytes, -l value | None, --file-type | None, source)]"""
+    from gen import meta as G, catalog as CAT, hostile as HO
+    out = []
+    k = 0
+    while len(out) < n:
+        k += 1
+        src = rng.choice(sources)
+        if src == 'meta':
+            cat = G.gen_catalog(rng)
+            css = G.charsets_for(cat)
+            if not css:
+                continue
+            cs = rng.choice(css[:8]) if rng.random() < 0.8 else rng.choice(css)
+            kind = rng.choice(['po', 'po', 'pot', 'mo', 'mo', 'gmo'])
+            if kind in ('mo', 'gmo'):
+                lay = G.gen_layout(rng)
+                data = G.render_mo(cat, cs, lay)
+            else:
+                data = G.render_po(cat, cs, G.Style(rng, rng.choice([0, 1, 2])))
+            ext = '.' + kind
+        elif src == 'catalog':
+            text, ext = CAT.gen_po(rng)
+            data = text.encode('utf-8', 'surrogateescape')
+            if rng.random() < 0.25:
+                try:
+                    import polib
+                    tmp = '/dev/shm/whole-compile.%d' % os.getpid()
+                    with open(tmp + '.po', 'wb') as f:
+                        f.write(data)
+                    polib.pofile(tmp + '.po').save_as_mofile(tmp + '.mo')
+                    data, ext = open(tmp + '.mo', 'rb').read(), '.mo'
+                except Exception:
+                    pass
+        else:
+            data, ext, _what = HO.gen_file(rng)
+            if len(data) > 20000:
+                continue
+        base = rng.choice(PATHS)
+        r = rng.random()
+        file_type = None
+        if r < 0.12:
+            file_type = rng.choice(['po', 'pot', 'mo', 'gmo', 'txt'])
+            if rng.random() < 0.5:
+                ext = rng.choice(['.po', '.pot', '.mo', '.txt', ''])
+        out.append((f'w{k}/{base}{ext}', data, rng.choice(LANG_OPTS), file_type, src))
+    return out
+
+# ----------------------------------------------------------------------------- shrinking and the stream
+
+def _ddmin(items, still_bad, budget):
+    """greedy chunk removal: the smallest sub-list (order kept) for which `still_bad` holds, within `budget` evaluations"""
+    n = 2
+    while len(items) >= 2 and budget[0] > 0:
+        size = max(1, len(items) // n)
+        removed = False
+        for start in range(0, len(items), size):
+            cand = items[:start] + items[start + size:]
+            budget[0] -= 1
+            if cand and still_bad(cand):
+                items, n, removed = cand, max(n - 1, 2), True
+                break
+            if budget[0] <= 0:
+                break
+        if not removed:
+            if size == 1:
+                break
+            n = min(len(items), n * 2)
+    return items
+
+def shrink(chk, case, workdir, budget=120):
+    """a smaller file with the same kind of disagreement: PO files by physical lines, MO files by entries and header lines (rebuilt in
+    the plainest layout); returns (bytes, first difference)"""
+    rel, data, lang_opt, file_type = case[:4]
+    counter = [0]
+    def disagrees(d):
+        counter[0] += 1
+        r = compare(_Quiet(chk), 'shrink', [(f'shrink{counter[0]}/{os.path.basename(rel)}' if '/' not in rel else
+                                             f'shrink{counter[0]}/' + rel.split('/', 1)[1], d, lang_opt, file_type)], workdir)[0]
+        return (not r['agree']) and r['skip'] is None, r
+    binary, _known = is_binary_ext(rel, file_type)
+    b = [budget]
+    best = data
+    if not binary:
+        lines = data.split(b'\n')
+        lines = _ddmin(lines, lambda ls: disagrees(b'\n'.join(ls))[0], b)
+        best = b'\n'.join(lines)
+    else:
+        try:
+            from gen import mo as GM
+            _hidden, kv = MO.ref_read_raw(data)
+            lay = dict(be=False, major=0, minor=0, nsysdep=0, hash=0, order='ktp', pad=0, share=False, pool='kv', gap=0)
+            def build(kvs):
+                cat = []
+                for k, v in kvs:
+                    ctxt, msgid, plural, forms = MO.ref_entry(k, v)
+                    cat.append((ctxt, msgid, plural, forms))
+                return GM.serialize(cat, lay)
+            if disagrees(build(kv))[0]:
+                kv = _ddmin(kv, lambda x: disagrees(build(x))[0], b)
+                if kv and kv[0][0] == b'':
+                    hl = kv[0][1].split(b'\n')
+                    hl = _ddmin(hl, lambda ls: disagrees(build([(b'', b'\n'.join(ls))] + kv[1:]))[0], b)
+                    kv = [(b'', b'\n'.join(hl))] + kv[1:]
+                best = build(kv)
+        except Exception:
+            pass
+    bad, r = disagrees(best)
+    if not bad:
+        bad, r = disagrees(data)
+        best = data
+    return best, r
+
+class _Quiet:
+    """a stand-in for `common.Check` that keeps shrinking runs out of the evidence counters"""
+    def __init__(self, chk):
+        self.coverage = {'streams': {}}
+        self.evaluations = 0
+
+EXCLUDED = {
+    'po-codec-family': "the file declares (or the retry needs) a charset the PO driver has no decoder for: only ASCII, ISO-8859-1, UTF-8 and single-byte "
+                       "charmaps are decoded by lean/I18n/Driver/Po.lean; multi-byte codecs (EUC-JP, GB18030, Shift_JIS, …) and iconv-only ones are skipped",
+    'po-codec-family-escape': 'the same, for escaped non-ASCII bytes that polib_unescape decodes in the declared charset',
+    'po-lookup-raises': 'codecs.lookup itself raises for a declared name (embedded NUL …): outside the Po.Env oracle',
+    'mo-codec-family': 'the same for lean/I18n/Driver/Mo.lean (ASCII, ISO-8859-1, UTF-8, single-byte charmaps)',
+    'cli-rejects-language': "cli.main() rejects the -l value ('invalid language'): Checker.check is never reached",
+    'recursion-limit': "the real run ended in RecursionError: the interpreter's stack budget is not modelled (open finding of C01, crash:RecursionError:lib/intexpr.py)",
+}
+
+def stream(chk, work_root, rng, n, name='whole-files', sources=('meta', 'catalog', 'hostile'), max_report=3):
+    """the `whole-files` stream.  → list of disagreements, each shrunk and attributed: dict(kind='whole-file', file_hex, path, options,
+    first_difference{index, real, model, stage_of_real_call}, real, model, replay).  Exported for C01 / C03: `whole_common.stream(chk, dir, rng, n)`."""
+    cases = gen_cases(rng, n, sources)
+    res = compare(chk, name, [c[:4] for c in cases], work_root)
+    st = chk.coverage['streams'][name]
+    # the one documented gap between model and interpreter
+    for p in res:
+        if p['skip'] is None and not p['agree'] and (p['real']['exc'] or '').startswith('RecursionError'):
+            p['agree'], p['skip'] = True, 'recursion-limit'
+            st['disagreements'] -= 1
+            st['cases'] -= 1
+            st['skipped']['recursion-limit'] = st['skipped'].get('recursion-limit', 0) + 1
+    st.setdefault('sources', {})
+    st.setdefault('tag_calls_compared', 0)
+    st.setdefault('calls_by_stage', {})
+    for p, c in zip(res, cases):
+        if p['skip'] is None:
+            st['sources'][c[4]] = st['sources'].get(c[4], 0) + 1
+            st['tag_calls_compared'] += len(p['real']['lines'])
+            for s in p['real']['stages']:
+                st['calls_by_stage'][s or 'check'] = st['calls_by_stage'].get(s or 'check', 0) + 1
+    st['excluded_because'] = {k: EXCLUDED.get(k, k) for k in st['skipped']}
+    found = []
+    for p, c in zip(res, cases):
+        if p['agree'] or p['skip'] is not None:
+            continue
+        if len(found) >= max_report:
+            break
+        data, r = shrink(chk, c, work_root)
+        d = first_difference(r)
+        found.append({'kind': 'whole-file', 'path': r['case'][0].split('/', 1)[-1], 'options': {'language': c[2], 'file_type': c[3]}, 'source': c[4],
+                      'file_hex': data.hex(), 'file_text': data.decode('latin1')[:2000], 'original_size': len(c[1]), 'shrunk_size': len(data),
+                      'first_difference': d, 'first_differing_stage': (d or {}).get('stage_of_real_call') or (d or {}).get('previous_real_stage'),
+                      'real': show_real(r['real'])[:3000], 'model': (r.get('model') or '')[:3000],
+                      'replay': 'write bytes.fromhex(file_hex) to <dir>/<path>; run lib.check.Checker(<that path>, options).check() with a capturing tag() '
+                                '(tools/checks/whole_common.real_run) and `whole check` of the Lean driver on the line whole_common.compare builds'})
+        chk.broken.append({'kind': 'correspondence', 'stream': name, 'line': (r.get('line') or '')[:600], 'impl': show_real(r['real'])[:300], 'model': (r.get('model') or '')[:300]})
+    return found
